@@ -304,7 +304,8 @@ PROPS["C08"] = {
     "assumptions": ["storage.rs, common.rs, config.rs are compiled in place by harness/kani-ws (aquatic_ws itself cannot be built by Kani)"],
     "harnesses": [
         H(KW, "c08::c08_announce_n0", _C08A, "N=0", [], cost=600, **_WS),
-        H(KW, "c08::c08_announce_n1", _C08A, "N=1 (ownership)", [], cost=1000, **_WS),
+        H(KW, "c08::c08_announce_n1", _C08A, "N=1 (ownership)", [], cost=1000,
+          native_tests={"owned by another connection": ("replay-ws", "c08_ownership_other_worker_same_slot")}, **_WS),
         H(KW, "c08::c08_scrape_n1_k1", "scrape: exactly one reply to the sender (pending id kept); requested (within max_scrape_torrents) and stored <=> listed with true counts; nothing else listed", "N=1, 1 hash", [], cost=60, mem_gb=20),
         H(KW, "c08::c08_scrape_n1_k2", "scrape as above", "N=1, 2 hashes", [], tier="thorough", cost=120, mem_gb=20),
         H(KW, "c08::c08_clean_n0", "TorrentMap::clean: peer kept <=> deadline > now; pending offer kept <=> its deadline > now; forbidden / empty torrent dropped", "N=0", [], cost=60, mem_gb=20),
